@@ -236,7 +236,8 @@ class Fn:
     """
 
     def __init__(self, name, params, defaults=None, n_out=1, out_shape=None, tag="", none_mod=0, seq_out=False,
-                 outer=None, dict_out=None, result_like=False):
+                 outer=None, dict_out=None, result_like=False, public_name=None):
+        self.public_name = public_name  # what pipefunc sees as __name__ (several functions may share it); logs use `name`
         self.result_like = result_like  # wrap the single result in an object that has a .result() method
         self.outer = dict(outer or {})  # own parameter name -> name in the pipeline (PipeFunc renames); logs use the latter
         self.dict_out = tuple(dict_out) if dict_out else None  # return {output name: value} (custom output_picker)
@@ -248,8 +249,8 @@ class Fn:
         self.n_out = n_out
         self.out_shape = tuple(out_shape) if out_shape is not None else None
         self.tag = tag
-        self.__name__ = name
-        self.__qualname__ = name
+        self.__name__ = public_name or name
+        self.__qualname__ = public_name or name
         self.__annotations__ = {}
         ps = []
         for p in self.params:
@@ -264,7 +265,7 @@ class Fn:
 
     def __reduce__(self):
         return (Fn, (self.name, self.params, self.sig_defaults, self.n_out, self.out_shape, self.tag, self.none_mod,
-                     self.seq_out, self.outer, self.dict_out, self.result_like))
+                     self.seq_out, self.outer, self.dict_out, self.result_like, self.public_name))
 
     def _one(self, fname, args):
         if self.out_shape is None:
